@@ -70,6 +70,14 @@ def skeletons(v, tier):
     out.append(("names", names, False))
     inner = ("c", False, v, {"co_name": S.text(v, b"g"), "co_firstlineno": "sym"})
     out.append(("nested", {"co_consts": ("(", False, [inner, ("N",)])}, False))
+    # one constant of every scalar kind the producing version can write, payloads symbolic
+    kinds = [("i", False), ("l", False, 2, True), ("l", False, 1, False)]
+    if v < (3, 4):
+        kinds.append(("I", False))
+    if v >= (2, 5):
+        kinds += [("raw", "g", False, [0, 0, 0, 0, 0, 0, 0xf8, 0x3f]), ("raw", "y", False, [0] * 7 + [0x40] + [0] * 7 + [0xc0])]
+    kinds += [("raw", "f", False, [3] + list(b"1.5")), ("s", False, 1, False), (tx, False, 1), ("T",), ("F",), (".",), ("S",)]
+    out.append(("const-kinds", {"co_consts": ("(", False, kinds)}, False))
     if refs:
         # the usual compiler pattern: flagged code, flagged filename shared with the nested code through 'r'
         # stream order: outer code (ref 0) ... co_consts[ inner code (ref 1): its filename (ref 2), its name (ref 3) ],
